@@ -24,6 +24,7 @@ from concurrent.futures import ProcessPoolExecutor, as_completed
 import multiprocessing
 
 from simkit.core import Choices, HarnessError, Result, derive_seed
+from simkit import core as _core
 
 ROOT = os.environ.get("GV_ROOT") or os.path.dirname(os.path.dirname(os.path.abspath(__file__)))
 N_DET = 6          # runs re-executed in a fresh interpreter under another hash seed on every check
@@ -49,11 +50,14 @@ def run_guarded(mod, case, choices):
     cap = getattr(mod, "CASE_WALL_S", 20.0)
     old = signal.signal(signal.SIGALRM, _alarm)
     _WALL["fired"] = False
+    _core.RAISED["last"] = None
     signal.setitimer(signal.ITIMER_REAL, cap)
     try:
         res = mod.run(case, choices)
         if _WALL["fired"]:
             return None, "WallCap: per-run wall cap (%.0fs) hit" % cap
+        if _core.RAISED["last"]:
+            return None, "swallowed " + _core.RAISED["last"]
         return res, None
     except HarnessError as e:
         return None, "%s: %s" % (type(e).__name__, e)
@@ -64,6 +68,52 @@ def run_guarded(mod, case, choices):
     finally:
         signal.setitimer(signal.ITIMER_REAL, 0)
         signal.signal(signal.SIGALRM, old)
+
+
+def run_isolated(mod, case, choices):
+    """Run one case in a forked child so that no interpreter-level state (class attributes, module globals, leaked
+    threads) survives from one simulated run to the next: every run starts from the state right after import, as a
+    freshly started gunicorn would.  Returns (Result|None, error|None, choice_log)."""
+    import pickle
+    r, w = os.pipe()
+    pid = os.fork()
+    if pid == 0:
+        os.close(r)
+        code = 0
+        try:
+            res, err = run_guarded(mod, case, choices)
+            if res is not None:
+                res.violate = None
+                res.__dict__.pop("violate", None)
+            data = pickle.dumps((res, err, choices.log), protocol=4)
+            with os.fdopen(w, "wb") as f:
+                f.write(data)
+        except BaseException:
+            code = 3
+        os._exit(code)
+    os.close(w)
+    chunks = []
+    with os.fdopen(r, "rb") as f:
+        while True:
+            b = f.read(1 << 16)
+            if not b:
+                break
+            chunks.append(b)
+    _, status = os.waitpid(pid, 0)
+    if not chunks:
+        return None, "isolated run died (wait status %r)" % status, []
+    try:
+        return pickle.loads(b"".join(chunks))
+    except Exception as e:
+        return None, "isolated run returned garbage: %r" % (e,), []
+
+
+def run_any(mod, case, choices):
+    if getattr(mod, "ISOLATE", False):
+        res, err, log = run_isolated(mod, case, choices)
+        choices.log[:] = log
+        return res, err
+    return run_guarded(mod, case, choices)
 
 
 def case_for(mod, seed, index, tier):
@@ -81,7 +131,7 @@ def _batch(modname, tier, seed, start, count):
     for index in range(start, start + count):
         case, s = case_for(mod, seed, index, tier)
         ch = Choices(seed=s ^ 0x5DEECE66D)
-        res, err = run_guarded(mod, case, ch)
+        res, err = run_any(mod, case, ch)
         out["n"] += 1
         if err is not None:
             if len(out["errors"]) < 3:
@@ -125,7 +175,7 @@ def match_known(known, key):
 
 
 def _reproduces(mod, case, choices, key):
-    res, err = run_guarded(mod, case, Choices(replay=choices))
+    res, err = run_any(mod, case, Choices(replay=choices))
     if res is None:
         return None
     for k, m in res.violations:
@@ -224,7 +274,7 @@ def digests_only(mod, tier, seed, start, count):
     out = {}
     for index in range(start, start + count):
         case, s = case_for(mod, seed, index, tier)
-        res, err = run_guarded(mod, case, Choices(seed=s ^ 0x5DEECE66D))
+        res, err = run_any(mod, case, Choices(seed=s ^ 0x5DEECE66D))
         out[str(index)] = res.digest if res is not None else "ERR:" + err[:100]
     print("DIGESTS " + json.dumps(out, sort_keys=True))
     return 0
